@@ -181,6 +181,71 @@ def parse_ok(s: str):
     return [p for p in params.split(", ") if p], ret
 
 
+def typed_literal_stream():
+    """a literal is a constant whether its type is inferred (`2`, `pdt.lit(2)`) or given (`pdt.lit(2, Int64())`): wherever a
+    `const` parameter accepts the one it accepts the other, with the same result type, and constness propagates alike"""
+    import polars as pl
+    import pydiverse.transform as pdt
+    from pydiverse.transform._internal.ops import ops
+    from pydiverse.transform._internal.ops.op import Operator
+    from pydiverse.transform._internal.tree import types
+    from pydiverse.transform._internal.tree.col_expr import ColFn
+
+    t = pdt.Table(pl.DataFrame({"i": [1, 2], "f": [0.5, 1.5], "s": ["a", "b"], "b": [True, False]}), name="c13lit")
+    col_of = [(pdt.Int64(), "i"), (pdt.Float64(), "f"), (pdt.String(), "s"), (pdt.Bool(), "b")]
+    val_of = {"int": (2, pdt.Int64()), "float": (1.5, pdt.Float64()), "string": ("a", pdt.String()), "bool": (True, pdt.Bool())}
+
+    def cls(ty):
+        ty = types.without_const(ty)
+        return "int" if ty.is_int() or type(ty) is pdt.Int else "float" if ty.is_float() or type(ty) is pdt.Float else \
+            "string" if ty == pdt.String() else "bool" if ty == pdt.Bool() else None
+
+    out = []
+    for attr in sorted(dir(ops)):
+        op = getattr(ops, attr)
+        if not isinstance(op, Operator):
+            continue
+        for sig in op.signatures:
+            if not any(types.is_const(p) for p in sig.types) or any(isinstance(types.without_const(p), types.Tyvar) for p in sig.types):
+                continue
+            plain, typed, ok = [], [], True
+            for p in sig.types:
+                c = cls(p)
+                if c is None:
+                    ok = False
+                    break
+                if types.is_const(p):
+                    v, ty = val_of[c]
+                    plain.append(v)
+                    typed.append(pdt.lit(v, ty))
+                else:
+                    cn = next(n for ty, n in col_of if cls(ty) == c)
+                    plain.append(t[cn])
+                    typed.append(t[cn])
+            if not ok:
+                continue
+            kw = {"arrange": [t.i]} if any(k.name == "arrange" and k.required for k in op.context_kwargs) else {}
+
+            def build(args):
+                try:
+                    return ("ok", str(ColFn(op, *args, **kw).dtype()))
+                except Exception as e:  # noqa: BLE001
+                    return ("error", type(e).__name__)
+
+            a, b = build(plain), build(typed)
+            if a[0] == "ok" and a != b:
+                out.append(dict(kind="typed_constant_differs", op=attr, args=[str(x) for x in sig.types], plain=a, typed=b))
+    # propagation
+    for mk, what in ((lambda: pdt.lit(1, pdt.Int16()) + 1, "lit(1, Int16()) + 1"), (lambda: -pdt.lit(2.5, pdt.Float64()), "-lit(2.5, Float64())"),
+                     (lambda: pdt.lit("a", pdt.String()) + "b", "lit('a', String()) + 'b'")):
+        try:
+            if not types.is_const(mk().dtype()):
+                out.append(dict(kind="typed_constant_differs", op="propagation", args=[what], plain="const", typed=str(mk().dtype())))
+        except Exception as e:  # noqa: BLE001
+            out.append(dict(kind="typed_constant_differs", op="propagation", args=[what], plain="const", typed=type(e).__name__))
+    return out
+
+
 def family_text(t: str) -> str:
     t = t.replace("const ", "")
     if t.startswith("list<") and t.endswith(">"):
@@ -338,6 +403,7 @@ def run(tier: str, seed: int) -> int:
             return f["id"]
         return None
 
+    oracle_viol += typed_literal_stream()
     new_viol = []
     known_hits = {}
     for c in oracle_viol:
